@@ -31,8 +31,6 @@ structure Env where
   /-- positional-argument filters. -/
   filters : Str → Option (V → List V → Res V) := fun _ => none
 
-abbrev RR := Res Unit × Rt × W
-
 def toUsize (i : Int) : Nat := if i < 0 then (2^64 - i.natAbs) else i.toNat
 
 /-- `iter_array` exactly as coded (`min`, `min`, `drain`, `resize`, `reverse`).  `resize` pads with
@@ -170,10 +168,84 @@ def Rt.push (rt : Rt) (l : Layer) : Rt := { rt with layers := l :: rt.layers }
 
 def Rt.setInterrupt (rt : Rt) (i : Option Intr) : Rt := rt.setRegs { rt.regs with interrupt := i }
 
-def writeR (rt : Rt) (w : W) (s : Str) : RR :=
+/-! ### the render monad
+
+Everything a `render_to` can do is: read/modify the runtime, write to the sink, fail.  `M` makes
+that explicit; the interpreter below is written with these primitives only, so that global facts
+(output is only ever appended, a failing sink yields a prefix, frames are balanced, …) are proved
+once per primitive and lifted through `bind`. -/
+
+def M (α : Type) : Type := Rt → W → Res α × Rt × W
+
+namespace M
+
+@[inline] def pure {α} (a : α) : M α := fun rt w => (.ok a, rt, w)
+
+@[inline] def bind {α β} (m : M α) (f : α → M β) : M β := fun rt w =>
+  match m rt w with
+  | (.ok a, rt', w') => f a rt' w'
+  | (.err, rt', w') => (.err, rt', w')
+  | (.io, rt', w') => (.io, rt', w')
+  | (.panic s, rt', w') => (.panic s, rt', w')
+  | (.fuel, rt', w') => (.fuel, rt', w')
+
+instance : Monad M where
+  pure := M.pure
+  bind := M.bind
+
+/-- a pure fallible computation (expression evaluation, lookups) -/
+def lift {α} (r : Res α) : M α := fun rt w => (r, rt, w)
+
+/-- one `write!` site -/
+def emit (s : Str) : M Unit := fun rt w =>
   match w.write s with
   | some w' => (.ok (), rt, w')
   | none => (.io, rt, w)
+
+def getSt : M Stack := fun rt w => (.ok rt.layers, rt, w)
+def getRegs : M Regs := fun rt w => (.ok rt.regs, rt, w)
+def setLayers (ls : Stack) : M Unit := fun rt w => (.ok (), { rt with layers := ls }, w)
+def setRegs (g : Regs) : M Unit := fun rt w => (.ok (), rt.setRegs g, w)
+
+def castErr {α β} : Res α → Res β
+  | .ok _ => .err   -- not used on `ok`
+  | .err => .err | .io => .io | .panic s => .panic s | .fuel => .fuel
+
+/-- run `m` against a private, never-failing in-memory buffer (`capture`, `ifchanged`) and return
+what it wrote; the outer sink is not touched. -/
+def capture (m : M Unit) : M Str := fun rt w =>
+  match m rt {} with
+  | (.ok (), rt', cw) => (.ok cw.text, rt', w)
+  | (o, rt', _) => (castErr o, rt', w)
+
+/-- run `m` inside the frames `ls` (head = innermost) pushed over the current runtime; the frames
+are dropped again afterwards, whatever the outcome (Rust: the `StackFrame` goes out of scope). -/
+def inFrames {α} (ls : List Layer) (m : M α) : M α := fun rt w =>
+  match m { rt with layers := ls ++ rt.layers } w with
+  | (r, rt', w') => (r, { rt' with layers := rt'.layers.drop ls.length }, w')
+
+end M
+
+/-- `runtime.set_global(name, value)` -/
+def setGlobalM (x : Str) (v : V) : M Unit := do
+  let st ← M.getSt
+  let ls ← M.lift (st.setGlobal x v)
+  M.setLayers ls
+
+def setIndexM (x : Str) (v : V) : M Unit := do
+  let st ← M.getSt
+  let ls ← M.lift (st.setIndex x v)
+  M.setLayers ls
+
+def setInterruptM (i : Option Intr) : M Unit := do
+  let g ← M.getRegs
+  M.setRegs { g with interrupt := i }
+
+/-- `registers().get_mut::<InterruptRegister>().reset()` -/
+def takeInterruptM : M (Option Intr) := do
+  let g ← M.getRegs
+  M.setRegs { g with interrupt := none }
+  pure g.interrupt
 
 def lookupPartial (env : Env) (name : Str) : Res Tmpl :=
   match env.partials.find? (·.1 == name) with
@@ -181,248 +253,205 @@ def lookupPartial (env : Env) (name : Str) : Res Tmpl :=
   | some (_, none) => .err
   | none => .err
 
-/-- iterate a loop body over the selected items (`for`, `render … for`); `step` renders the body
-for element `v` at position `i` in a runtime that already has the iteration's frame(s) pushed and
-returns the runtime with them still in place. `npop` frames are dropped afterwards. -/
-def loopItems (step : V → Nat → Rt → W → RR) (npop : Nat) : List V → Nat → Rt → W → RR
-  | [], _, rt, w => (.ok (), rt, w)
-  | v :: r, i, rt, w =>
-    match step v i rt w with
-    | (.ok (), rt', w') =>
-      let intr := rt'.regs.interrupt
-      let rt'' := rt'.setInterrupt none
-      let rt'' := { rt'' with layers := rt''.layers.drop npop }
-      if intr == some .brk then (.ok (), rt'', w') else loopItems step npop r (i + 1) rt'' w'
-    | (o, rt', w') => (o, rt', w')
+/-- the loop of `For::render_to` / `Render::render_to` (for form): `step v i` renders the body for
+element `v` at position `i` inside its own frames and returns the interrupt it consumed; a
+`break` ends the loop, anything else goes on with the next element. -/
+def loopItems (step : V → Nat → M (Option Intr)) : List V → Nat → M Unit
+  | [], _ => pure ()
+  | v :: r, i => do
+    let intr ← step v i
+    if intr == some .brk then pure () else loopItems step r (i + 1)
 
-def tableItems (step : V → Nat → Rt → W → RR) : List V → Nat → Rt → W → RR
-  | [], _, rt, w => (.ok (), rt, w)
-  | v :: r, i, rt, w =>
-    match step v i rt w with
-    | (.ok (), rt', w') => tableItems step r (i + 1) rt' w'
-    | (o, rt', w') => (o, rt', w')
+def tableItems (step : V → Nat → M Unit) : List V → Nat → M Unit
+  | [], _ => pure ()
+  | v :: r, i => do
+    step v i
+    tableItems step r (i + 1)
 
 /-- `Template::render_to`: render the elements in order, stop at the first error, and stop (with
 `Ok`) as soon as an interrupt is pending. `f` renders one element. -/
-def renderList (f : Node → Rt → W → RR) : Tmpl → Rt → W → RR
-  | [], rt, w => (.ok (), rt, w)
-  | n :: r, rt, w =>
-    match f n rt w with
-    | (.ok (), rt', w') =>
-      if rt'.regs.interrupt.isSome then (.ok (), rt', w') else renderList f r rt' w'
-    | o => o
+def renderList (f : Node → M Unit) : Tmpl → M Unit
+  | [] => pure ()
+  | n :: r => do
+    f n
+    let g ← M.getRegs
+    if g.interrupt.isSome then pure () else renderList f r
 
-def renderN (fuel : Nat) (env : Env) (n : Node) (rt : Rt) (w : W) : RR :=
-  match fuel with
-  | 0 => (.fuel, rt, w)
-  | fuel + 1 =>
-  match n with
-  | .text s => writeR rt w s
-  | .raw s => writeR rt w s
-  | .comment => (.ok (), rt, w)
-  | .output e fs =>
-    match evalChain env rt.layers e fs with
-    | .ok v => writeR rt w v.render
-    | .err => (.err, rt, w) | .io => (.io, rt, w) | .panic s => (.panic s, rt, w) | .fuel => (.fuel, rt, w)
-  | .assign x e fs =>
-    match evalChain env rt.layers e fs with
-    | .ok v => (match rt.layers.setGlobal x v with
-        | .ok ls => (.ok (), rt.setLayers ls, w)
-        | .panic s => (.panic s, rt, w)
-        | _ => (.err, rt, w))
-    | .err => (.err, rt, w) | .io => (.io, rt, w) | .panic s => (.panic s, rt, w) | .fuel => (.fuel, rt, w)
-  | .capture x body =>
-    match renderList (renderN fuel env) body rt {} with
-    | (.ok (), rt', cw) =>
-      (match rt'.layers.setGlobal x (.sc (.str cw.text)) with
-        | .ok ls => (.ok (), rt'.setLayers ls, w)
-        | .panic s => (.panic s, rt', w)
-        | _ => (.err, rt', w))
-    | (o, rt', _) => (o, rt', w)
-  | .incr x =>
-    let val : Int := match rt.layers.getIndex x with
-      | some (.sc s) => (s.toInteger?).getD 0
-      | _ => 0
-    (match w.write (intRepr val) with
-     | none => (.io, rt, w)
-     | some w' =>
-       if !inI64 (val + 1) then (.panic "increment: add overflow", rt, w') else
-       match rt.layers.setIndex x (iV (val + 1)) with
-       | .ok ls => (.ok (), rt.setLayers ls, w')
-       | .panic s => (.panic s, rt, w')
-       | _ => (.err, rt, w'))
-  | .decr x =>
-    let val : Int := match rt.layers.getIndex x with
-      | some (.sc s) => (s.toInteger?).getD 0
-      | _ => 0
-    if !inI64 (val - 1) then (.panic "decrement: sub overflow", rt, w) else
-    (match w.write (intRepr (val - 1)) with
-     | none => (.io, rt, w)
-     | some w' =>
-       match rt.layers.setIndex x (iV (val - 1)) with
-       | .ok ls => (.ok (), rt.setLayers ls, w')
-       | .panic s => (.panic s, rt, w')
-       | _ => (.err, rt, w'))
-  | .brk => (.ok (), rt.setInterrupt (some .brk), w)
-  | .cont => (.ok (), rt.setInterrupt (some .cont), w)
-  | .cycle name vals =>
-    let regs := rt.regs
-    (match cycleStep regs.cycles name vals.length with
-     | none => (.panic "cycle: remainder by zero", rt, w)
-     | some (j, cycles') =>
-       let rt := rt.setRegs { regs with cycles := cycles' }
-       match vals[j]? with
-       | none => (.err, rt, w)
-       | some e =>
-         match e.eval rt.layers with
-         | .ok v => writeR rt w v.render
-         | .err => (.err, rt, w) | .io => (.io, rt, w) | .panic s => (.panic s, rt, w) | .fuel => (.fuel, rt, w))
-  | .cond c mode thn els =>
-    (match c.eval rt.layers with
-     | .ok b =>
-       if b == mode then renderList (renderN fuel env) thn rt w
-       else (match els with
-         | some t => renderList (renderN fuel env) t rt w
-         | none => (.ok (), rt, w))
-     | .err => (.err, rt, w) | .io => (.io, rt, w) | .panic s => (.panic s, rt, w) | .fuel => (.fuel, rt, w))
-  | .case_ target arms els =>
-    (match target.eval rt.layers with
-     | .ok value =>
-       (match casePick rt.layers value arms with
-        | .ok (some body) => renderList (renderN fuel env) body rt w
-        | .ok none => (match els with
-            | some t => renderList (renderN fuel env) t rt w
-            | none => (.ok (), rt, w))
-        | .err => (.err, rt, w) | .io => (.io, rt, w) | .panic s => (.panic s, rt, w) | .fuel => (.fuel, rt, w))
-     | .err => (.err, rt, w) | .io => (.io, rt, w) | .panic s => (.panic s, rt, w) | .fuel => (.fuel, rt, w))
-  | .for_ x rng limit offset rev body els =>
-    let st := rt.layers
-    let sel : Res (List V) := do
-      let arr ← rng.eval st
-      let lim ← evalAttr st limit
-      let off ← evalAttr st offset
-      pure (iterArray arr lim (off.getD 0) rev)
-    (match sel with
-     | .ok [] => (match els with
-         | some t => renderList (renderN fuel env) t rt w
-         | none => (.ok (), rt, w))
-     | .ok items =>
-       let parent := (st.tryGet [.str "forloop".toList]).getD .nil
-       let len := items.length
-       loopItems (fun v i rt w =>
-           let root := objInsert (objInsert [] "forloop".toList (forloopObj i len parent)) x v
-           renderList (renderN fuel env) body (rt.push (.plain root)) w) 1 items 0 rt w
-     | .err => (.err, rt, w) | .io => (.io, rt, w) | .panic s => (.panic s, rt, w) | .fuel => (.fuel, rt, w))
-  | .tablerow x rng cols limit offset body =>
-    let st := rt.layers
-    let sel : Res (List V × Option Nat) := do
-      let arr ← rng.eval st
-      let c ← evalAttr st cols
-      let lim ← evalAttr st limit
-      let off ← evalAttr st offset
-      pure (iterArray arr lim (off.getD 0) false, c)
-    (match sel with
-     | .ok (items, c) =>
-       let len := items.length
-       let cols := c.getD len
-       tableItems (fun v i rt w =>
-           if cols == 0 then (.panic "tablerow: remainder by zero", rt, w) else
-           let col := i % cols
-           let row := i / cols
-           let colsI := usizeAsI64 cols
-           if !inI64 (colsI - 1) then (.panic "tablerow: cols - 1 overflow", rt, w) else
-           let tr := tablerowObj i len col colsI
-           let colFirst := col == 0
-           let colLast := ((col : Int) == colsI - 1) || ((i : Int) == (len : Int) - 1)
-           let root := objInsert (objInsert [] "tablerow".toList tr) x v
-           let w1 : Option W := if colFirst then w.write ("<tr class=\"row".toList ++ natDigits (row + 1) ++ "\">".toList) else some w
-           match w1 with
-           | none => (.io, rt, w)
-           | some w1 =>
-           match w1.write ("<td class=\"col".toList ++ natDigits (col + 1) ++ "\">".toList) with
-           | none => (.io, rt, w1)
-           | some w2 =>
-           match renderList (renderN fuel env) body (rt.push (.plain root)) w2 with
-           | (.ok (), rt', w3) =>
-             let rt' := rt'.pop
-             (match w3.write "</td>".toList with
-              | none => (.io, rt', w3)
-              | some w4 =>
-                if colLast then (match w4.write "</tr>".toList with
-                  | none => (.io, rt', w4)
-                  | some w5 => (.ok (), rt', w5))
-                else (.ok (), rt', w4))
-           | (o, rt', w3) => (o, rt'.pop, w3)) items 0 rt w
-     | .err => (.err, rt, w) | .io => (.io, rt, w) | .panic s => (.panic s, rt, w) | .fuel => (.fuel, rt, w))
-  | .ifchanged body =>
-    (match renderList (renderN fuel env) body rt {} with
-     | (.ok (), rt', cw) =>
-       let rendered := cw.text
-       let regs := rt'.regs
-       let changed := match regs.lastChanged with
-         | some l => l != rendered
-         | none => true
-       let rt'' := rt'.setRegs { regs with lastChanged := some rendered }
-       if changed then writeR rt'' w rendered else (.ok (), rt'', w)
-     | (o, rt', _) => (o, rt', w))
-  | .include_ name args =>
-    let st := rt.layers
-    (match name.eval st with
-     | .ok (.sc s) =>
-       let pname := s.render
-       (match evalVars st args [] with
-        | .ok pass =>
-          (match lookupPartial env pname with
-           | .ok t =>
-             (match renderList (renderN fuel env) t (rt.push (.plain pass)) w with
-              | (o, rt', w') => (o, rt'.pop, w'))
-           | _ => (.err, rt, w))
-        | .panic s => (.panic s, rt, w)
-        | _ => (.err, rt, w))
-     | .ok _ => (.err, rt, w)
-     | .err => (.err, rt, w) | .io => (.io, rt, w) | .panic s => (.panic s, rt, w) | .fuel => (.fuel, rt, w))
-  | .render_ name form args =>
-    let st := rt.layers
-    (match name.eval st with
-     | .ok (.sc s) =>
-       let pname := s.render
-       let getPartial : Res Tmpl := match lookupPartial env pname with
-         | .ok t => .ok t
-         | _ => lookupPartial env (pname ++ ".liquid".toList)
-       (match form with
-        | .for_ rng as_ =>
-          (match rng.eval st with
-           | .ok items =>
-             let len := items.length
-             loopItems (fun v i rt w =>
-                 match evalVars rt.layers args [] with
-                 | .ok root0 =>
-                   let root := objInsert (objInsert root0 "forloop".toList (forloopObj i len .nil)) as_ v
-                   let rt1 := (rt.push (.sandbox root {})).push (.global [])
-                   (match getPartial with
-                    | .ok t => renderList (renderN fuel env) t rt1 w
-                    | _ => (.err, rt1, w))
-                 | .panic s => (.panic s, (rt.push (.sandbox [] {})).push (.global []), w)
-                 | _ => (.err, (rt.push (.sandbox [] {})).push (.global []), w)) 2 items 0 rt w
-           | .err => (.err, rt, w) | .io => (.io, rt, w) | .panic s => (.panic s, rt, w) | .fuel => (.fuel, rt, w))
-        | _ =>
-          let vars : List (Str × Expr) := match form with
-            | .with_ e as_ => (as_, e) :: args
-            | _ => args
-          (match evalVars st vars [] with
-           | .ok root =>
-             (match getPartial with
-              | .ok t =>
-                (match renderList (renderN fuel env) t ((rt.push (.sandbox root {})).push (.global [])) w with
-                 | (o, rt', w') => (o, rt'.pop.pop, w'))
-              | _ => (.err, rt, w))
-           | .panic s => (.panic s, rt, w)
-           | _ => (.err, rt, w)))
-     | .ok _ => (.err, rt, w)
-     | .err => (.err, rt, w) | .io => (.io, rt, w) | .panic s => (.panic s, rt, w) | .fuel => (.fuel, rt, w))
+/-- `render` looks a partial up by `name`, then by `name.liquid` -/
+def lookupPartialR (env : Env) (pname : Str) : Res Tmpl :=
+  match lookupPartial env pname with
+  | .ok t => .ok t
+  | _ => lookupPartial env (pname ++ ".liquid".toList)
 
-def renderT (fuel : Nat) (env : Env) (t : Tmpl) (rt : Rt) (w : W) : RR :=
-  renderList (renderN fuel env) t rt w
+/-- the variables a `render` tag passes: `with e as x` is one more `x: e` in front -/
+def RForm.vars (form : RForm) (args : List (Str × Expr)) : List (Str × Expr) :=
+  match form with
+  | .with_ e as_ => (as_, e) :: args
+  | _ => args
+
+/-- one iteration of `For::render_to`: the body runs inside a frame binding `forloop` and the
+loop variable; the interrupt it leaves is consumed here. -/
+def forStep (x : Str) (len : Nat) (parent : V) (body : M Unit) (v : V) (i : Nat) : M (Option Intr) :=
+  let root := objInsert (objInsert [] "forloop".toList (forloopObj i len parent)) x v
+  M.inFrames [.plain root] (do
+    body
+    takeInterruptM)
+
+/-- one cell of `TableRow::render_to` -/
+def tablerowStep (x : Str) (len ncols : Nat) (body : M Unit) (v : V) (i : Nat) : M Unit :=
+  if ncols == 0 then M.lift (.panic "tablerow: remainder by zero") else
+  let col := i % ncols
+  let row := i / ncols
+  let colsI := usizeAsI64 ncols
+  if !inI64 (colsI - 1) then M.lift (.panic "tablerow: cols - 1 overflow") else
+  let tr := tablerowObj i len col colsI
+  let colLast := ((col : Int) == colsI - 1) || ((i : Int) == (len : Int) - 1)
+  let root := objInsert (objInsert [] "tablerow".toList tr) x v
+  do
+    if col == 0 then M.emit ("<tr class=\"row".toList ++ natDigits (row + 1) ++ "\">".toList) else pure ()
+    M.emit ("<td class=\"col".toList ++ natDigits (col + 1) ++ "\">".toList)
+    M.inFrames [.plain root] body
+    M.emit "</td>".toList
+    if colLast then M.emit "</tr>".toList else pure ()
+
+/-- one iteration of `{% render … for … as … %}`: a fresh global frame over a sandboxed frame that
+holds only the arguments, a truthful `forloop` and the item. -/
+def renderForStep (st : Stack) (args : List (Str × Expr)) (as_ : Str) (len : Nat)
+    (body : M Unit) (v : V) (i : Nat) : M (Option Intr) := do
+  let root0 ← M.lift (evalVars st args [])
+  let root := objInsert (objInsert root0 "forloop".toList (forloopObj i len .nil)) as_ v
+  M.inFrames [.global [], .sandbox root {}] (do
+    body
+    takeInterruptM)
+
+def counterVal (st : Stack) (x : Str) : Int :=
+  match st.getIndex x with
+  | some (.sc s) => (s.toInteger?).getD 0
+  | _ => 0
+
+def renderN : Nat → Env → Node → M Unit
+  | 0, _, _ => M.lift .fuel
+  | fuel + 1, env, .text s => M.emit s
+  | fuel + 1, env, .raw s => M.emit s
+  | fuel + 1, env, .comment => pure ()
+  | fuel + 1, env, .output e fs => do
+    let st ← M.getSt
+    let v ← M.lift (evalChain env st e fs)
+    M.emit v.render
+  | fuel + 1, env, .assign x e fs => do
+    let st ← M.getSt
+    let v ← M.lift (evalChain env st e fs)
+    setGlobalM x v
+  | fuel + 1, env, .capture x body => do
+    let s ← M.capture (renderList (renderN fuel env) body)
+    setGlobalM x (.sc (.str s))
+  | fuel + 1, env, .incr x => do
+    let st ← M.getSt
+    let val := counterVal st x
+    M.emit (intRepr val)
+    if !inI64 (val + 1) then M.lift (.panic "increment: add overflow") else
+    setIndexM x (iV (val + 1))
+  | fuel + 1, env, .decr x => do
+    let st ← M.getSt
+    let val := counterVal st x
+    if !inI64 (val - 1) then M.lift (.panic "decrement: sub overflow") else do
+    M.emit (intRepr (val - 1))
+    setIndexM x (iV (val - 1))
+  | fuel + 1, env, .brk => setInterruptM (some .brk)
+  | fuel + 1, env, .cont => setInterruptM (some .cont)
+  | fuel + 1, env, .cycle name vals => do
+    let g ← M.getRegs
+    match cycleStep g.cycles name vals.length with
+    | none => M.lift (.panic "cycle: remainder by zero")
+    | some (j, cycles') => do
+      M.setRegs { g with cycles := cycles' }
+      match vals[j]? with
+      | none => M.lift .err
+      | some e => do
+        let st ← M.getSt
+        let v ← M.lift (e.eval st)
+        M.emit v.render
+  | fuel + 1, env, .cond c mode thn els => do
+    let st ← M.getSt
+    let b ← M.lift (c.eval st)
+    if b == mode then renderList (renderN fuel env) thn
+    else match els with
+      | some t => renderList (renderN fuel env) t
+      | none => pure ()
+  | fuel + 1, env, .case_ target arms els => do
+    let st ← M.getSt
+    let value ← M.lift (target.eval st)
+    let pick ← M.lift (casePick st value arms)
+    match pick with
+    | some body => renderList (renderN fuel env) body
+    | none => match els with
+      | some t => renderList (renderN fuel env) t
+      | none => pure ()
+  | fuel + 1, env, .for_ x rng limit offset rev body els => do
+    let st ← M.getSt
+    let arr ← M.lift (rng.eval st)
+    let lim ← M.lift (evalAttr st limit)
+    let off ← M.lift (evalAttr st offset)
+    let items := iterArray arr lim (off.getD 0) rev
+    match items with
+    | [] => (match els with
+        | some t => renderList (renderN fuel env) t
+        | none => pure ())
+    | _ =>
+      let parent := (st.tryGet [.str "forloop".toList]).getD .nil
+      let len := items.length
+      loopItems (forStep x len parent (renderList (renderN fuel env) body)) items 0
+  | fuel + 1, env, .tablerow x rng cols limit offset body => do
+    let st ← M.getSt
+    let arr ← M.lift (rng.eval st)
+    let c ← M.lift (evalAttr st cols)
+    let lim ← M.lift (evalAttr st limit)
+    let off ← M.lift (evalAttr st offset)
+    let items := iterArray arr lim (off.getD 0) false
+    let len := items.length
+    let ncols := c.getD len
+    tableItems (tablerowStep x len ncols (renderList (renderN fuel env) body)) items 0
+  | fuel + 1, env, .ifchanged body => do
+    let rendered ← M.capture (renderList (renderN fuel env) body)
+    let g ← M.getRegs
+    let changed := match g.lastChanged with
+      | some l => l != rendered
+      | none => true
+    M.setRegs { g with lastChanged := some rendered }
+    if changed then M.emit rendered else pure ()
+  | fuel + 1, env, .include_ name args => do
+    let st ← M.getSt
+    let v ← M.lift (name.eval st)
+    match v with
+    | .sc s => do
+      let pass ← M.lift (evalVars st args [])
+      let t ← M.lift (lookupPartial env s.render)
+      M.inFrames [.plain pass] (renderList (renderN fuel env) t)
+    | _ => M.lift .err
+  | fuel + 1, env, .render_ name form args => do
+    let st ← M.getSt
+    let v ← M.lift (name.eval st)
+    match v with
+    | .sc s =>
+      let pname := s.render
+      let getPartial : Res Tmpl := lookupPartialR env pname
+      match form with
+      | .for_ rng as_ => do
+        let items ← M.lift (rng.eval st)
+        let len := items.length
+        loopItems (renderForStep st args as_ len (do
+          let t ← M.lift getPartial
+          renderList (renderN fuel env) t)) items 0
+      | _ => do
+        let root ← M.lift (evalVars st (form.vars args) [])
+        let t ← M.lift getPartial
+        M.inFrames [.global [], .sandbox root {}] (renderList (renderN fuel env) t)
+    | _ => M.lift .err
+
+def renderT (fuel : Nat) (env : Env) (t : Tmpl) : M Unit :=
+  renderList (renderN fuel env) t
+
+abbrev RR := Res Unit × Rt × W
 
 /-- `liquid::Template::render` on caller data `globals`: fresh runtime, never-failing buffer. -/
 def renderTop (fuel : Nat) (env : Env) (t : Tmpl) (globals : Obj) : Res Str :=
